@@ -96,6 +96,47 @@ def sloppy_rotation_matrices(rng, w):
     walk(w['json'])
 
 
+def vertical_slabs(rng, w):
+    """slabs and faults that dip at exactly 90 degrees (so that segment junctions and the tip sit at exactly representable depths below the
+    trench), mass conserving models without a taper (taper distance 0)"""
+    for f, ft in zip(w['json']['features'], w['truth']['features']):
+        if ft['type'] not in wg.LINE:
+            continue
+        def fix(segs):
+            for sg in segs:
+                sg['angle'] = [90.0]
+                sg.pop('top truncation', None)
+        fix(f['segments'])
+        for sec in f.get('sections', []):
+            fix(sec['segments'])
+        ft['vertical'] = True
+        if ft['type'] == 'subducting plate' and rng.random() < 0.6:
+            cx, cy = ft['centre']
+            sz = ft['size']
+            thick = max(max(sg['thickness']) for sg in f['segments'])
+            lat = lambda y: max(-85.0, min(85.0, y)) if w['truth']['ctx'].sph else y
+            f['temperature models'] = [{'model': 'mass conserving', 'spreading velocity': wg.num(rng, 0.02, 0.1), 'subducting velocity': wg.num(rng, 0.02, 0.1),
+                                        'ridge coordinates': [[[wg.R(cx - 6 * sz), wg.R(lat(cy - 3 * sz))], [wg.R(cx - 6 * sz), wg.R(lat(cy + 3 * sz))]]],
+                                        'min distance slab top': wg.R(-0.3 * thick), 'max distance slab top': wg.R(thick), 'coupling depth': wg.R(rng.uniform(1e4, 8e4)),
+                                        'taper distance': 0.0 if rng.random() < 0.8 else wg.num(rng, 1e3, 1e5)}]
+            for sg in f['segments']:
+                sg.pop('temperature models', None)
+                sg['top truncation'] = [wg.R(-0.3 * thick)]
+            f.pop('sections', None)
+        def models(o):
+            for m in o.get('temperature models', []):
+                if m.get('model') == 'mass conserving' and rng.random() < 0.7:
+                    m['taper distance'] = 0.0
+                    m['coupling depth'] = wg.R(rng.uniform(1e4, 8e4))
+        models(f)
+        for sg in f['segments']:
+            models(sg)
+        for sec in f.get('sections', []):
+            models(sec)
+            for sg in sec['segments']:
+                models(sg)
+
+
 def ridge_through_footprint(rng, w):
     """oceanic plates with a ridge model: put the ridge through the footprint (a straight line through the centre, or a polyline with a
     vertex at the centre), so that points exactly on the ridge axis (age zero) are inside the plate"""
@@ -193,6 +234,24 @@ def catalogue(rng, w, extreme):
                         for s in (L, 0.5 * L, L * (1 + 1e-12)):
                             surf.append(('slab-surface-or-tip', px + nx * s * math.cos(th) / unit, py + ny * s * math.cos(th) / unit, d0 + s * math.sin(th)))
             surf.append(('dip-point', ft['dip'][0], ft['dip'][1], d0 + 1e4))
+            if ft.get('vertical') and fj is not None:
+                # exactly at the segment junctions and at the tip of a vertical slab, on the trench and a little to both sides
+                cum = 0.0
+                marks = []
+                for sg in fj['segments']:
+                    cum += sg['length']
+                    marks.append(d0 + cum)
+                thick = max(max(sg['thickness']) for sg in fj['segments'])
+                for k in range(len(tr) - 1):
+                    for u in (0.5, 0.3):
+                        px, py = tr[k][0] + u * (tr[k + 1][0] - tr[k][0]), tr[k][1] + u * (tr[k + 1][1] - tr[k][1])
+                        ex, ey = tr[k + 1][0] - tr[k][0], tr[k + 1][1] - tr[k][1]
+                        Ln = math.hypot(ex, ey) or 1.0
+                        for off in (0.0, 0.3, -0.3, 0.7):
+                            qx, qy = px - ey / Ln * off * thick / unit, py + ex / Ln * off * thick / unit
+                            for dm in marks:
+                                for dd in (dm, nextafter(dm, False), nextafter(dm, True)):
+                                    surf.append(('vertical-slab-junction-or-tip', qx, qy, dd))
     base = t['base']
     for _ in range(10):
         surf.append(('random', base[0] + rng.uniform(-2, 2) * base[2], base[1] + rng.uniform(-2, 2) * base[2], rng.choice([0.0, rng.uniform(0, 7e5)])))
@@ -233,7 +292,7 @@ def main(tier, seed, replay):
     rng = random.Random(seed * 4447 + 13)
     V = core.Verdict(PID, tier, seed)
     V.coverage['rule'] = ('generated worlds with finite parameters (all feature/model types, both systems) and corpus worlds queried (3D and 2D, full property lists) at a catalogue of degenerate locations derived from '
-                          'the truth record: polygon vertices and edge midpoints, feature min/max depths exactly and their floating point neighbours, the own min/max depth exactly and its neighbours (half of the worlds have model ranges rewritten to touch the range of the feature in one depth: starting where the feature ends, ending where it starts, without extent, two layers meeting at one depth, a max depth surface reaching the min depth of the model at one listed point), plume centres/rims/tip, points exactly on a ridge axis (ridges rewritten to pass through the plate) at depth zero and the top of the model, rotation matrices written with 2-4 decimals (a quarter of the worlds), trench coordinates, points on the trench line and '
+                          'the truth record: polygon vertices and edge midpoints, feature min/max depths exactly and their floating point neighbours, the own min/max depth exactly and its neighbours (half of the worlds have model ranges rewritten to touch the range of the feature in one depth: starting where the feature ends, ending where it starts, without extent, two layers meeting at one depth, a max depth surface reaching the min depth of the model at one listed point), plume centres/rims/tip, points exactly on a ridge axis (ridges rewritten to pass through the plate) at depth zero and the top of the model, rotation matrices written with 2-4 decimals (a quarter of the worlds), exactly vertical slabs/faults queried exactly at their segment junctions and tip (mass conserving without taper), trench coordinates, points on the trench line and '
                           'below it, slab surface and tip, dip point, poles, the date line with both signs of zero, the planet centre, cartesian surface heights at/below the min depth, random points (thorough: magnitudes '
                           'up to 1e12): every answer finite or a std::exception, no sanitizer report, signal or hang; non-trivial = catalogue points on a degenerate locus')
     quick = tier == 'quick'
@@ -248,6 +307,8 @@ def main(tier, seed, replay):
             ridge_through_footprint(wrng, w)
         if i % 4 == 0:
             sloppy_rotation_matrices(wrng, w)
+        if i % 5 == 1:
+            vertical_slabs(wrng, w)
         fn = 'w%d.wb' % i
         c = core.Case('w%d' % i, files={fn: wg.dumps(w['json'])})
         world(c, 1, core.workfile(PID, fn))
